@@ -73,6 +73,8 @@ try:
             old = json.load(open(prev))
             if 'tests' in old:
                 meta['tests'] = old['tests']
+            if 'first_contact' in old and not a.first_home:
+                meta['first_contact'] = old['first_contact']      # what the checks said before they were strengthened
                 meta['ran'].insert(3, '(pinned suite not re-run: result kept from the first confirmation of this seed)')
     # ---- demo ------------------------------------------------------------------------------
     r1 = sh(['/venv/bin/python', '-B', demo, wt], timeout=900)
